@@ -243,6 +243,33 @@ def adopt(decl_dict: bool, pi: int, an: bool) -> None:
 adopt.ranges = lambda consts: dict(pi=(0, 2))
 
 
+def cdf(cos: bool, pi: int, decl_dict: bool, level: int) -> None:
+    """A Selector whose default is computed (compute_default_fn) after declaration, possibly to a value outside the declared
+    objects: the computed default is a valid state, so it must validate against the schema generated afterwards."""
+    cos, decl_dict = pickbool(cos), pickbool(decl_dict)
+    val = ['a', 'c', 3][pick(pi, 0, 2)]
+    with untraced():
+        class P(param.Parameterized):
+            x = param.Selector(objects=({'one': 1, 'two': 'a'} if decl_dict else [1, 'a']), default=None, check_on_set=cos,
+                               compute_default_fn=lambda: val)
+    pobj = P.param.x
+    if level == 1:
+        pobj = P().param.x       # per-instance Parameter object
+    pobj.compute_default()
+    info = {'kind': 'Selector compute_default_fn', 'check_on_set': cos, 'dict_declared': decl_dict, 'value': repr(val), 'level': level,
+            'allow_None': False, 'is_none': False}
+    check('C16.valid_state_validates', pobj.default == val, dict(info, default=repr(pobj.default)))
+    p = P()
+    owner = p if level == 0 else pobj.owner
+    sch = owner.param.schema()['x']
+    check('C16.wellformed', wellformed(sch), dict(info, schema=repr(sch)))
+    ser = jsonify(pobj.serialize(pobj.default))
+    check('C16.valid_state_validates', validates(sch, ser), dict(info, schema=repr(sch), ser=repr(ser)))
+
+
+cdf.ranges = lambda consts: dict(pi=(0, 2))
+
+
 def inst_i(typ: int, has_lo: bool, lo: int, has_hi: bool, hi: int, inc_lo: bool, inc_hi: bool, v: int, probe: int) -> None:
     """Per-instance Parameter objects: bounds edited on the instance govern both the state and the instance's schema."""
     has_lo, has_hi, inc_lo, inc_hi = (pickbool(x) for x in (has_lo, has_hi, inc_lo, inc_hi))
@@ -284,6 +311,8 @@ def shards(tier):
             out.append(dict(name='%s_an%d_i' % (KINDS[kind], an), module='harness.c16', fn='prog_i', consts=c, budget_s=60 if q else 300))
     for dd in (False, True):
         out.append(dict(name='adopt_%d' % dd, module='harness.c16', fn='adopt', consts=dict(decl_dict=dd), budget_s=60 if q else 300))
+    for level in (0, 1):
+        out.append(dict(name='cdf_%d' % level, module='harness.c16', fn='cdf', consts=dict(level=level), budget_s=60 if q else 300))
     for typ in (0, 1):
         out.append(dict(name='inst_%d' % typ, module='harness.c16', fn='inst_i', consts=dict(typ=typ), budget_s=60 if q else 300))
     for kind in (1, 2):
